@@ -172,7 +172,9 @@ def main(tier):
                 run.nontriv(("st", src))
         # ---------- an edit that cannot be carried out (`name - <something that has no negative>`) ends the list with an error: the host hears
         #            of the edits before it, and of nothing from it on — a failed edit is not reported as if it had happened
-        NONNUM = ["'abc'", "[1,2]", "{'a':1}", "`x{1}`", "('a'+'b')", "[1][0:1]"]
+        NONNUM = ["'abc'", "[1,2]", "{'a':1}", "`x{1}`", "('a'+'b')", "[1][0:1]",
+                  # (the sign binds to the first operand only: these are values the EDIT has to negate, and cannot)
+                  "0||'abc'", "1?'a':'b'", "0||[1,2]", "0 || {'a':1}", "0?1:`t`", "1&&'s'"]
         fcases = []
         for _ in range(300 if tier == "thorough" else 80):
             pre_src, pre_exp = gen_modify_list(r) if r.random() < 0.5 else gen_assign_list(r)
